@@ -42,9 +42,13 @@ CHECKS["C09"] = {"category": "proof",
   "text": "WriteEscapedValue (the RFC 4180 quoting of one field) is proved: step contracts for both loops (stop exactly at DQUOTE/separator/LF/CR; each character appended once, DQUOTE doubled) and a modular function-level proof with loop contracts for every field length (unquoted only if no character needs quoting - arbitrary witness position; quoted = DQUOTE + verbatim prefix + one step per remaining character + DQUOTE). The readers' parsing and the write/read round trip are decided by BOUNDED native stand-ins (all documents up to length 8 over {a , DQUOTE CR LF}, both readers, sequential and by key, against an independent RFC 4180 parser) - listed under 'bounded', not counted as proved.",
   "note": "CSV readers (ParseNextLine/UnescapeValue) are only under the bounded check; encodings/BOM of CSV streams reduce to C13; event-log string model",
   "technique": _T + "step + loop contracts on the real WriteEscapedValue (R2, SAT); bounded native exhaustive stand-in for the readers"}
+CHECKS["C13"] = {"category": "proof",
+  "text": "DetectEncoding: every BOM selects its encoding and offset for every text length (UTF-32LE before UTF-16LE); BOM-less texts starting with a non-NUL ASCII character are detected as their encoding for every length (whole function on all texts up to 8 bytes + the analysis-loop step at an arbitrary position of an arbitrarily long text); NUL-free UTF-8 is never misdetected; WriteBom emits the exact BOM. CEncodedStreamReader<char,256>::ReadChunk/IsEnd are proved from an arbitrary well-formed state against the decoder contracts: every stream byte is handed to the decoder exactly once, in order, on whole code units, independent of the chunk boundary; a Success result strictly reduces the undecoded bytes (no hang); an incomplete tail at the end of the stream is marked or reported per policy.",
+  "note": "decoders replaced by their contracts (proved in utf_transcode, LE/BE iterator adapters not under contract); only the char-target instantiation with chunk 256; CEncodedStreamWriter::Write (std::variant/visit) not under contract; istream model",
+  "technique": _T + "class invariant + progress measure + ghost content tracking on the real CEncodedStreamReader; step/whole-function contracts on DetectEncoding (R2, SAT)"}
 _NR = "not reached yet in this round: the check is not built; see DESIGN.md §0 for the planned contracts"
 NOT_APPLICABLE = {
  "C08": "well-formedness and acceptance of JSON/XML text is decided inside RapidJSON and pugixml (third-party code outside /repo); no contract on /repo code can express it without a verified model of those libraries (DESIGN.md §4 C08)",
 }
-for _p in ["C01","C03","C05","C13","C16","C17","C18","C19","C20"]:
+for _p in ["C01","C03","C05","C16","C17","C18","C19","C20"]:
     NOT_APPLICABLE.setdefault(_p, _NR)
